@@ -172,6 +172,37 @@ def run(P, R, tier):
                             f'writer opens with mode {m!r}' + ('' if m in ('wb', 'w') else ': a retry after a partial write appends/keeps stale bytes') +
                             ('' if (g.tags.get('retry') or g is F) else ' outside a retried helper'))
     R.floor('C19.d', 'open-for-write sites', nw, 4)
+    # a retried function must be re-entrant: it may not mutate captured (non-local) objects, because a retry repeats the mutation
+    from effects import base_name
+    MUT = ('append', 'extend', 'add', 'update', 'insert', 'remove', 'pop', 'clear', 'sort', 'reverse', 'setdefault')
+    nre = 0
+    for g in helpers.values():
+        if not g.tags.get('retry'):
+            continue
+        nre += 1
+        local = set(g.params)
+        for n_ in walk_own(g.node):
+            if isinstance(n_, ast.Name) and isinstance(n_.ctx, ast.Store):
+                local.add(n_.id)
+        dirty = []
+        for c in astq.own_calls(g):
+            if isinstance(c.func, ast.Attribute) and any(c.func.attr == m or c.func.attr.startswith(m + '_') for m in MUT):
+                b_ = base_name(c.func.value)
+                if b_ is not None and b_ not in local and not astq.fs_call(c):
+                    dirty.append(c)
+        for n_ in walk_own(g.node):
+            if isinstance(n_, (ast.Assign, ast.AugAssign)):
+                for t in (n_.targets if isinstance(n_, ast.Assign) else [n_.target]):
+                    if isinstance(t, (ast.Subscript, ast.Attribute)):
+                        b_ = base_name(t)
+                        if b_ is not None and b_ not in local:
+                            dirty.append(n_)
+        if dirty:
+            for c in dirty:
+                R.bad('C19.d', g, c, f'retried function {g.name} mutates captured state `{norm(c)}`: every retry repeats the mutation (e.g. duplicated row groups in _metadata)')
+        else:
+            R.ok('C19.d', g, None, f'retried function {g.name} mutates no captured state (re-entrant)', construct=f'@retry {g.name} re-entrant')
+    R.floor('C19.d', 'retried helpers', nre, 6)
 
     # ---------------------------------------------------------------- C19.c removal re-check
     removers = [g for g in helpers.values() if any(astq.fs_call(c) in ('rm', 'rm_file', 'rmdir', 'delete') for c in astq.own_calls(g))]
